@@ -20,7 +20,7 @@ from ..simnet.pipe import Pipe
 PROPERTY = 'C08'
 LEVEL = 'fault_enumeration'
 TECHNIQUE = 'injection matrix (lifecycle point x exit kind x propagate/obey policies x position) on the simulated network; call-log + open-socket-table + run()-outcome monitors and a reference closure over the topology graph for propagation'
-RULE = ('injection point {init, setup, process #0/#1/#5, deferred (callable) result, shutdown, external stop event while '
+RULE = ('injection point {before run(), init, late init, setup, process #0/#1/#5, deferred (callable) result, shutdown, external stop event while '
         'blocked} x how {exit(), exception, stop event} x policies prop/obey drawn per filter from {all, clean, error, none} '
         'x exiting filter at every position of chain / tee / tee-rejoin; exit_after as seconds, m:s string and @date-time; '
         'non-trivial = the exit happened after all links of the exiting filter were established (propagation judged) ; '
@@ -65,13 +65,15 @@ def gen_case(rng, seed, matrix=None):
     point, how = (matrix[2], matrix[3]) if matrix else rng.choice([
         ('setup', 'exit'), ('setup', 'raise'), ('process', 'exit'), ('process', 'raise'), ('process', 'stop_evt'), ('process', 'exit'), ('process', 'raise'),
         ('callable', 'raise'), ('callable', 'exit'), ('shutdown', 'exit'), ('shutdown', 'raise'), ('external-stop', 'stop_evt'), ('init', 'raise'),
-        ('init-late', 'raise'), ('init-late', 'exit')])
+        ('init-late', 'raise'), ('init-late', 'exit'), ('init-late', 'stop_evt'), ('setup', 'stop_evt'), ('pre-run', 'stop_evt')])
     node = p.by_id[x]
     k = rng.choice([0, 1, 5, 8, 8, 12])
     faults = []
     trigger = None          # a second filter whose clean exit makes X run its shutdown()
     if point == 'init-late':
         node['beh']['inject'] = {'point': 'init-late', 'how': how, 'k': None}
+    if point == 'pre-run':
+        node['stop_preset'] = True          # the stop event is already set when run() is called (stop requested during a slow start)
     if point in ('setup', 'process', 'shutdown'):
         node['beh']['inject'] = {'point': point, 'how': how, 'k': k if point == 'process' else None}
         if point == 'shutdown':
@@ -357,7 +359,7 @@ def run_shard(ctx):
         i = 0
         for pe in POL:
             for oe in POL:
-                for point, how in [('process', 'exit'), ('process', 'raise'), ('process', 'stop_evt'), ('callable', 'raise'), ('shutdown', 'raise'), ('shutdown', 'exit'), ('setup', 'raise'), ('setup', 'exit'), ('external-stop', 'stop_evt'), ('init', 'raise'), ('init-late', 'raise'), ('init-late', 'exit')]:
+                for point, how in [('process', 'exit'), ('process', 'raise'), ('process', 'stop_evt'), ('callable', 'raise'), ('shutdown', 'raise'), ('shutdown', 'exit'), ('setup', 'raise'), ('setup', 'exit'), ('external-stop', 'stop_evt'), ('init', 'raise'), ('init-late', 'raise'), ('init-late', 'exit'), ('init-late', 'stop_evt'), ('setup', 'stop_evt'), ('pre-run', 'stop_evt')]:
                     for rep in range(3):
                         i += 1
                         if ctx.mine(i):
